@@ -60,7 +60,7 @@ func init() {
 		}
 	}})
 	if raceorc.Enabled {
-		register(&Engine{Prop: "C16", Run: c16.Run, Init: c16.Init, Isolated: true, Watchdog: 300 * time.Second, Info: func() map[string]interface{} {
+		register(&Engine{Prop: "C16", Run: c16.Run, Init: c16.Init, Isolated: true, Watchdog: 1200 * time.Second, Info: func() map[string]interface{} {
 			return map[string]interface{}{
 				"rule": "3/4 of the runs are scheduled runs: 2-6 real caller goroutines (1-3 pipelines each: Parse->Fprint (or RestoreFile / decision point / format.Node), DecorateFile/ParseFile with import management through a SHARED goast resolver -> tape-drawn edits -> import-managed Fprint through a SHARED read-only name resolver (optionally one reused FileRestorer per worker) -> re-decorate, or a Package over a FileSet shared by all workers saved to a private simulated disk), serialised by a race-detector-invisible scheduler whose every decision (first worker, change points / round-robin quantum / sticky-random switches, decision-point granularity: resolver calls only, or every function entry and statement of an instrumented copy of the library) comes from the tape; oracles: race detector (O1), equality with an isolated sequential reference (O2), in-worker repetition (O3), no panic (O4), progress (O5). " +
 					"1/4 are repetition runs: decorate / restore / RestoreFile / ParseDir repeated R times (8 quick, 32 thorough) on equal inputs biased to map-derived choices. evaluations = runs; a scheduled run's distinct case is the hash of its (worker, site) sequence at context switches together with the shared kinds; a repetition run's is the hash of its results; distinct by 64-bit hash over all processes.",
